@@ -384,10 +384,10 @@ def run(a, res):
     else:
         all_cases = [gen_case(a.seed, n) for n in range(a.cases)]
 
-    def run_with(pf, cases):
+    def run_with(pf, cases, rhp="on"):
         conf = (f"cache_mem 32 MB\nmaximum_object_size_in_memory 1 MB\nrequest_header_max_size 16 KB\nreply_header_max_size 16 KB\n"
                 "dns_timeout 1 seconds\nconnect_timeout 2 seconds\nclient_request_buffer_max_size 256 KB\nrange_offset_limit 1 MB\n"
-                f"pipeline_prefetch {pf}\n")
+                f"pipeline_prefetch {pf}\nrelaxed_header_parser {rhp}\n")
         lab = Lab(a, res, handler=handler, conf=conf)
         lab.crash_is_violation = True
         sq = lab.sq
@@ -480,7 +480,7 @@ def run(a, res):
             return False
 
         try:
-            if not probe(f"start{pf}"):
+            if not probe(f"start{pf}{rhp}"):
                 raise RuntimeError("initial health probe failed: " + sq.tail_log())
             with ThreadPoolExecutor(8) as ex:
                 for b0 in range(0, len(cases), BATCH):
@@ -510,11 +510,11 @@ def run(a, res):
 
     # batches alternate between a squid that handles pipelined requests one at a time and one that reads ahead
     # (pipeline_prefetch 3): hostile streams are full of pipelined requests and interim responses
-    for pf, par in ((0, 0), (3, 1)):
-        mine = [c for c in all_cases if (c["n"] // BATCH) % 2 == par]
+    for pf, par, rhp in ((0, 0, "on"), (3, 1, "on"), (0, 2, "off"), (3, 3, "off")):
+        mine = [c for c in all_cases if (c["n"] // BATCH) % 4 == par]
         if mine:
-            res.count(f"cases_with_pipeline_prefetch_{pf}", len(mine))
-            run_with(pf, mine)
+            res.count(f"cases_with_pipeline_prefetch_{pf}_relaxed_header_parser_{rhp}", len(mine))
+            run_with(pf, mine, rhp)
     cases = all_cases
     if not a.replay_data:
         cn = res.counters
